@@ -395,24 +395,7 @@ def _r4(ctx, mod):
             ctx.decide(bad is None, "C03-R4", site, TRAJ, q, "%s of the result is the concatenation on every path" % field, "",
                        "on some path (%s) the joined trajectory's %s is not the concatenation of the inputs' %s (e.g. None -> default "
                        "arange): times assigned to the pieces are lost" % (_fmt_state(bad) if bad else "", field, field))
-    # the result carries deepcopy of the topology and the concatenated arrays: R1.
-    fn = ctx.py.func(TRAJ, "Trajectory.stack")
-    q = "Trajectory.stack"
-    cfg = CFG(fn)
-    hs = [n for n in walk_no_nested(fn) if isinstance(n, ast.Call) and call_name(n) in ("np.hstack", "np.concatenate")]
-    if not hs:
-        raise AnalysisError("no hstack/concatenate in Trajectory.stack")
-    h = hs[0]
-    arg = h.args[0] if h.args else None
-    elts = [dotted(e) for e in arg.elts] if isinstance(arg, (ast.Tuple, ast.List)) else []
-    axis_ok = call_name(h) == "np.hstack" or const(kwarg(h, "axis", 1)) == 1
-    ctx.decide(elts == ["self.xyz", "other.xyz"] and axis_ok, "C03-R4", h, TRAJ, q, "hstack((self.xyz, other.xyz))",
-               "atoms of self first, then other, along the atom axis", "stack does not concatenate (self.xyz, other.xyz) along atoms: %s" % src(h))
-    nd = cfg.node_containing(h)
-    guards = [n for n in cfg.nodes() if cfg.kind[n] == "test" and isinstance(cfg.stmt[n], ast.If)
-              and "n_frames" in src(cfg.stmt[n].test) and any(isinstance(s, ast.Raise) for s in cfg.stmt[n].body)]
-    ok = bool(guards) and nd not in cfg.reachable(cfg.entry, removed={guards[0]})
-    ctx.decide(ok, "C03-R4", h, TRAJ, q, "frame-count raise dominates hstack", "guarded", "hstack reachable without the n_frames check")
+    # Trajectory.stack: by value in R7 (xyz concatenated atom-wise, other fields from self, another number of frames refused)
 
 
 def r6_inplace_returns(ctx):
@@ -611,6 +594,18 @@ def r7_values(ctx):
             pr.append("the topology is not self.topology.join(other.topology, keep_resSeq=keep_resSeq)")
         return pr
     run("Trajectory.stack", "stack(b): xyz concatenated atom-wise; time and the whole cell from self; topology = join of the two", b_stack, s_stack)
+    # a trajectory with another number of frames is refused (before anything is built)
+    fn_s = ctx.py.func(TRAJ, "Trajectory.stack")
+    try:
+        from ..tensym import Raised as _Raised
+        ev_ = TenSym({}, models=models())
+        try:
+            r_ = ev_.run_fn(fn_s, self=traj("a", 2, atoms=3), other=traj("b", 3, atoms=2))
+            ctx.violated("C03-R7", fn_s, TRAJ, "Trajectory.stack", "stack(b) with another number of frames is refused", "a trajectory of 3 frames is stacked onto one of 2 frames: %s is returned" % ("a Trajectory" if isinstance(r_, Obj) else r_))
+        except (_Raised, ShapeError) as e_:
+            ctx.holds("C03-R7", fn_s, TRAJ, "Trajectory.stack", "stack(b) with another number of frames is refused", str(getattr(e_, "exc", "") or e_)[:60])
+    except TUnsupported as e_:
+        ctx.undecided("C03-R7", fn_s, TRAJ, "Trajectory.stack", "stack(b) with another number of frames is refused", "not evaluable: %s" % e_)
 
     # ---- slice
     for key, kdesc in ((slice(0, 2), "0:2"), (slice(None, None, 2), "::2"), ([2, 0], "[2, 0]"), (slice(1, 2), "1:2")):
